@@ -69,7 +69,7 @@ def _headers_digest(repo):
 
 def ast_docs(repo, src, flt, hdr_digest=None):
     """All declarations of <repo>/src/<src> whose qualified name contains `flt`, as parsed JSON
-    documents.  Cached under build/astcache/<sha256(file + headers + filter + clang version)>."""
+    documents.  Cached under build/astcache/<sha256(file + headers + filter + clang version + path)>."""
     path = os.path.join(repo, "src", src)
     try:
         with open(path, "rb") as fh:
@@ -79,7 +79,9 @@ def ast_docs(repo, src, flt, hdr_digest=None):
     h = hashlib.sha256()
     h.update(content)
     h.update((hdr_digest or _headers_digest(repo)).encode())
-    h.update(("|%s|%s|%s" % (src, flt, clang_version())).encode())
+    # the absolute path is part of the key: the AST records it, and `source_text` re-reads the file from that
+    # path (an entry made from a scratch copy with identical content must not serve /repo after the copy is gone)
+    h.update(("|%s|%s|%s|%s" % (src, flt, clang_version(), os.path.abspath(path))).encode())
     key = os.path.join(CACHE, h.hexdigest() + ".json")
     text = None
     if os.path.exists(key):
